@@ -145,7 +145,7 @@ CHECKS = {
              "coarse-grid, zero-containing, uniform and one-hot columns), bin sizes 0.01-1 and pseudocounts 1e-6-0.1; every table entry "
              "must equal log2 of the exact number of sequences with discretised score >= that bin over 4^w within 1e-9, be exactly -inf "
              "above the highest attainable score, 0 at/below the lowest, monotone, never NaN or > 0.",
-        note="Exercises the one numba/LLVM build in this sandbox. Observes the module-level function _pwm_to_mapping named in the "
+        note="Exercises the one numba/LLVM build in this sandbox. A second sub-check scans every sequence of the motif length through fimo() (also after an earlier scan with other settings) and compares the p-value column with the exact tails. Observes the module-level function _pwm_to_mapping named in the "
              "property's observation points (its absence is a HARNESS-ERROR); the p-value column of fimo() is checked in C12."),
     "C12": dict(
         technique="property-based testing (Hypothesis): differential against a pure-numpy reference scanner with exact C11 tables + directed threshold-band construction + metamorphic views",
